@@ -292,7 +292,7 @@ def contains_total(ip, st, item, cont):
             return True
         if kind_of(item) != "str":
             raise Unsupported("non-str key in JSON dict membership")
-        return as_value("bool", V.j_dhas(cont.term, to_term(item)))
+        return as_value("bool", V.dhas(st, cont.term, to_term(item)))
     k = seq_kind(cont)
     if k == "str":
         if kind_of(item) != "str":
@@ -737,7 +737,7 @@ def index(ip, st, v, i):
         if kind_of(i) != "str":
             yield st, Raise(mk_exc(st, "KeyError", "non-str key"))
             return
-        has = V.j_dhas(v.term, to_term(i))
+        has = V.dhas(st, v.term, to_term(i))
         if ip.spec:
             yield st, JVal(V.j_dget(v.term, to_term(i)))
             return
